@@ -6,6 +6,7 @@ import (
 	"fmt"
 	"net"
 	"runtime"
+	"sort"
 	"sync"
 	"sync/atomic"
 
@@ -13,6 +14,7 @@ import (
 	"github.com/tidwall/tile38/internal/collection"
 	"github.com/tidwall/tile38/internal/field"
 	"github.com/tidwall/tile38/internal/object"
+	lua "github.com/yuin/gopher-lua"
 )
 
 // Verification hooks, compiled only with the "verif" build tag.
@@ -366,4 +368,45 @@ func (s *Server) VerifLockMode() string {
 	l.mu.Lock()
 	defer l.mu.Unlock()
 	return l.modes[id]
+}
+
+// VerifLuaGlobals enumerates, for every idle interpreter of the script pool,
+// everything reachable from the script's global environment: "name:type" for
+// each global, "table.name:type" for members of global tables (recursively),
+// and the members of the string metatable's __index. Scripts cannot enumerate
+// _G themselves (no pairs/next), so the sandbox check (C18) does it from Go.
+func (s *Server) VerifLuaGlobals() [][]string {
+	pl := s.luapool
+	pl.m.Lock()
+	defer pl.m.Unlock()
+	var out [][]string
+	for _, L := range pl.saved {
+		var names []string
+		seen := map[*lua.LTable]bool{}
+		var walk func(prefix string, t *lua.LTable, depth int)
+		walk = func(prefix string, t *lua.LTable, depth int) {
+			if seen[t] || depth > 4 {
+				return
+			}
+			seen[t] = true
+			t.ForEach(func(k, v lua.LValue) {
+				name := prefix + k.String()
+				names = append(names, name+":"+v.Type().String())
+				if sub, ok := v.(*lua.LTable); ok {
+					walk(name+".", sub, depth+1)
+				}
+			})
+		}
+		g := L.Get(lua.GlobalsIndex).(*lua.LTable)
+		walk("", g, 0)
+		if mt, ok := L.GetMetatable(lua.LString("")).(*lua.LTable); ok {
+			walk("(string-metatable).", mt, 0)
+		}
+		if mt, ok := L.GetMetatable(g).(*lua.LTable); ok {
+			walk("(globals-metatable).", mt, 0)
+		}
+		sort.Strings(names)
+		out = append(out, names)
+	}
+	return out
 }
